@@ -237,6 +237,75 @@ def random_keys(nb0, nb1, b0, b1, c0, c1, seed):
     sx.require(sx.sor(same_block, k1 != k3), "distinct-blocks-share-a-stream", f"blocks ({b0},{b1}) and ({c0},{c1})")
 
 
+class RecTarget(G.ZStub):
+    """an existing target array (a storage array for cubed) that records what is written into it"""
+
+    def __init__(self, shape, chunks, dtype, log, label):
+        super().__init__(shape, chunks, dtype)
+        self._log = log
+        self._label = label
+
+    def __setitem__(self, key, value):
+        key = key if isinstance(key, tuple) else (key,)
+        self._log.append(("write", self._label, tuple((k.start, k.stop) for k in key), _summ(value)))
+
+    def set_basic_selection(self, key, value, fields=None):
+        self.__setitem__(key, value)
+
+
+def retarget_after_compute(n, c, blk0):
+    """the same array object is first COMPUTED (its operation's task runs and writes the intermediate array) and then STORED with
+    cubed.store (the real _store_array re-targets the operation's write proxy to the user's array): the task executed after that
+    must write where the operation config NOW points -- no state left in the config by the earlier execution may redirect it"""
+    import cubed
+    from cubed.primitive.blockwise import apply_blockwise
+    from cubed.storage.virtual import VirtualArray
+
+    c01._start()
+    sx.assume(c <= n)
+    x = G.stub_array("x", (n,), (c,))
+    b = c01._xp().negative(x)
+    (opname, op), = [(o, p) for o, p in G.all_ops(b._plan.dag) if hasattr(p.pipeline.config, "writes_map")]
+    spec = op.pipeline.config
+    nb = sx.conc(-((-n) // c))
+    coords = [sx.conc(blk0 % nb)]
+    log = []
+    # (1) compute: the task runs against recorders standing for the source and the lazily created intermediate array
+    saved = []
+    for m in (spec.reads_map, spec.writes_map):
+        for nm, proxy in m.items():
+            if not isinstance(proxy.array, VirtualArray):
+                saved.append((proxy, proxy.array))
+                proxy.array = RecArray(("first", nm), proxy.array, log, None)
+    apply_blockwise(list(coords), config=spec)
+    first = [e for e in log if e[0] == "write"]
+    sx.require(len(first) == 1 and first[0][1][0] == "first", "first-execution-did-not-write-the-intermediate-array", str(first))
+    for proxy, arr in saved:
+        proxy.array = arr
+    del log[:]
+    # (2) store the same array object into an existing target: real store/_store_array
+    target = RecTarget((n,), (c,), "float64", log, "target")
+    (out,) = cubed.store([b], [target], compute=False)
+    ops2 = [(o, p) for o, p in G.all_ops(out._plan.dag) if hasattr(p.pipeline.config, "writes_map")]
+    wrote_to = []
+    for o2, p2 in ops2:
+        sp2 = p2.pipeline.config
+        saved2 = []
+        for nm, proxy in sp2.reads_map.items():
+            if not isinstance(proxy.array, (VirtualArray, RecArray, RecTarget)):
+                saved2.append((proxy, proxy.array))
+                proxy.array = RecArray(("second", nm), proxy.array, log, None)
+        try:
+            if any(isinstance(wp.array, RecTarget) for wp in sp2.writes_map.values()):
+                apply_blockwise(list(coords), config=sp2)
+        finally:
+            for proxy, arr in saved2:
+                proxy.array = arr
+    writes = [e for e in log if e[0] == "write"]
+    sx.require(len(writes) == 1 and writes[0][1] == "target", "task-after-re-targeting-does-not-write-the-new-target",
+               f"writes after store(): {[(e[1], e[2]) for e in writes]} (a stale handle from the earlier execution redirects the write)")
+
+
 def create_preserves(struct, sub, g, e0, e1, w0, w1):
     """the create-arrays task (real create_zarr_arrays pipeline -> create_zarr_array -> LazyZarrArray.create -> open_storage_array ->
     open_zarr_v3_array) from an ARBITRARY pre-state of the store (each node of the array may or may not exist, with or without
@@ -358,6 +427,15 @@ def obligations(tier):
                  outside="the zarr library itself (model validated against the installed zarr on 120 operation x pre-state combinations at start); obstore / zarrs back ends",
                  stubs=["stubs/zarr_model.py standing in for the `zarr` module inside cubed.storage.stores.zarr_python_v3"],
                  witness_rule=lambda m: m["e0"] == 1 and m["w0"] == 1))
+
+    import cubed.core.ops as cops
+    import cubed.primitive.types as cpt
+
+    o.append(Obl("retarget[compute-then-store]", retarget_after_compute, [("n", 1, N), ("c", 1, N), ("blk0", 0, N + 6)], allowed=c01.ALLOWED, setup=c01.setup,
+                 functions=fns + [cops._store_array, cops.store, cpt.CubedArrayProxy.open], wall_s=wall,
+                 bounds=f"negative(x) with length/chunks <= {N}: its task executed once (as compute does), then the array stored into an existing target by the real store(), "
+                        "then the task executed again at a symbolic block coordinate",
+                 outside="other histories (store twice, fused producers); executors", stubs=["recording arrays / recording target"], witness_rule=lambda m: m["n"] >= 2))
 
     def ctwin(**kw):
         create_preserves(**kw)
